@@ -609,7 +609,17 @@ pub struct DriverOpts {
 pub fn driver_main(prop: &Prop, opts: &DriverOpts) -> i32 {
     install_panic_hook();
     let t0 = Instant::now();
-    let tier = opts.tier;
+    let mut tier = opts.tier;
+    // a replay runs in the tier its case was generated in (case counts and sizes depend on the tier)
+    if let Some(r) = &opts.replay {
+        if let Some(v) = std::fs::read(r).ok().and_then(|b| serde_json::from_slice::<Value>(&b).ok()) {
+            if v["tier"].as_str() == Some("thorough") {
+                tier = Tier::Thorough;
+            } else if v["tier"].as_str() == Some("quick") {
+                tier = Tier::Quick;
+            }
+        }
+    }
     let tmp = tmp_dir(prop.id);
     let mut merged = Ctx::new(prop.id, tier, opts.seed, 0, 1, "driver");
     let mut children_notes: Vec<(String, BTreeMap<String, String>)> = Vec::new();
